@@ -334,10 +334,11 @@ def attr_provenance(path, attr_text: str, func: FuncInfo, prog, resolver, cls, u
     for ev in path.events:
         if upto is not None and upto(ev):
             break
-        if ev.kind != "assign" or ev.target != attr_text or not isinstance(ev.node, (ast.Assign, ast.AnnAssign)) or ev.frame[0] is not func:
+        if ev.kind != "assign" or ev.target != attr_text or not isinstance(ev.node, (ast.Assign, ast.AnnAssign)):
             continue
-        v = expand_ast(ev.node.value, func, ev.defs) if ev.defs else copy.deepcopy(ev.node.value)
-        v = _ReturnInliner(prog, resolver, func, cls).visit(copy.deepcopy(v))
+        fn = ev.frame[0] if ev.frame and ev.frame[0] is not None else func  # helpers inlined by the walker count too
+        v = expand_ast(ev.node.value, fn, ev.defs) if ev.defs else copy.deepcopy(ev.node.value)
+        v = _ReturnInliner(prog, resolver, fn, cls).visit(copy.deepcopy(v))
         if cur is not None:
             prev = cur
 
@@ -350,3 +351,26 @@ def attr_provenance(path, attr_text: str, func: FuncInfo, prog, resolver, cls, u
             v = _Sub().visit(v)
         cur = clear_norm_cache(ast.fix_missing_locations(v))
     return cur
+
+
+def resolve_value(expr: ast.AST, func: FuncInfo, cls, defs, prog, resolver) -> ast.AST:
+    """`expr` with locals replaced by their definitions (flow-sensitive `defs`, or single-assignment locals when
+    None) and calls to one-return helpers of the class replaced by the expression they return."""
+    import copy
+
+    from .facts import expand_ast
+    from .loader import clear_norm_cache
+
+    v = expand_ast(expr, func, defs)
+    v = _ReturnInliner(prog, resolver, func, cls).visit(copy.deepcopy(v))
+    return clear_norm_cache(ast.fix_missing_locations(v))
+
+
+def assigns_attr(func: FuncInfo, attr_text: str) -> bool:
+    return any(isinstance(n, (ast.Assign, ast.AnnAssign, ast.AugAssign)) and any(norm(t) == attr_text for t in (n.targets if isinstance(n, ast.Assign) else [n.target]))
+               for n in ast.walk(func.node))
+
+
+def inline_attr_setters(prog, attr_text: str, depth: int = 3):
+    """Inline policy: methods called on self that (directly) assign the attribute are walked as part of their caller."""
+    return lambda fn, t, d: d < depth and t.bound_cls is not None and assigns_attr(fn, attr_text)
